@@ -14,6 +14,8 @@
    stream restarts) is the single step `do_connect`; an inbound top-level element is an `initem` (the parser and
    the handler filters are C10/C11's subject); user stanza handlers, timed handlers (the virtual clock never
    moves), the session-establishment iq, the `sm_disable` flag and stream features without <bind/> are not used.
+   The application's connection handler is the script `on_connect`: on XMPP_CONN_CONNECT it submits these stanzas
+   (simworld: `onconnect send:..`), at exactly the point where _stream_negotiation_success calls it.
    Byte strings are `list Z`; the 32-bit counters are reduced with `w32` exactly where the C wraps.
 
    Every element that enters the send queue carries a ghost id (`q_gid`, allocated from `next_gid`; a stanza
@@ -77,56 +79,59 @@ Record state := mk_state {
   sm_bound : bool;
   bind_saved : bool;
   next_gid : Z;
-  nconn : Z
+  nconn : Z;
+  on_connect : list (list Z)
 }.
 
 Definition set_connected (s : state) (v : bool) : state :=
-  mk_state v (neg_done s) (h_feat s) (h_bind s) (h_sm s) (sm_enabled s) (sm_support s) (can_resume s) (resume s) (dont_req s) (r_sent s) (sent_nr s) (handled_nr s) (sq s) (smq s) (sm_id s) (previd s) (bound s) (sm_bound s) (bind_saved s) (next_gid s) (nconn s).
+  mk_state v (neg_done s) (h_feat s) (h_bind s) (h_sm s) (sm_enabled s) (sm_support s) (can_resume s) (resume s) (dont_req s) (r_sent s) (sent_nr s) (handled_nr s) (sq s) (smq s) (sm_id s) (previd s) (bound s) (sm_bound s) (bind_saved s) (next_gid s) (nconn s) (on_connect s).
 Definition set_neg_done (s : state) (v : bool) : state :=
-  mk_state (connected s) v (h_feat s) (h_bind s) (h_sm s) (sm_enabled s) (sm_support s) (can_resume s) (resume s) (dont_req s) (r_sent s) (sent_nr s) (handled_nr s) (sq s) (smq s) (sm_id s) (previd s) (bound s) (sm_bound s) (bind_saved s) (next_gid s) (nconn s).
+  mk_state (connected s) v (h_feat s) (h_bind s) (h_sm s) (sm_enabled s) (sm_support s) (can_resume s) (resume s) (dont_req s) (r_sent s) (sent_nr s) (handled_nr s) (sq s) (smq s) (sm_id s) (previd s) (bound s) (sm_bound s) (bind_saved s) (next_gid s) (nconn s) (on_connect s).
 Definition set_h_feat (s : state) (v : bool) : state :=
-  mk_state (connected s) (neg_done s) v (h_bind s) (h_sm s) (sm_enabled s) (sm_support s) (can_resume s) (resume s) (dont_req s) (r_sent s) (sent_nr s) (handled_nr s) (sq s) (smq s) (sm_id s) (previd s) (bound s) (sm_bound s) (bind_saved s) (next_gid s) (nconn s).
+  mk_state (connected s) (neg_done s) v (h_bind s) (h_sm s) (sm_enabled s) (sm_support s) (can_resume s) (resume s) (dont_req s) (r_sent s) (sent_nr s) (handled_nr s) (sq s) (smq s) (sm_id s) (previd s) (bound s) (sm_bound s) (bind_saved s) (next_gid s) (nconn s) (on_connect s).
 Definition set_h_bind (s : state) (v : bool) : state :=
-  mk_state (connected s) (neg_done s) (h_feat s) v (h_sm s) (sm_enabled s) (sm_support s) (can_resume s) (resume s) (dont_req s) (r_sent s) (sent_nr s) (handled_nr s) (sq s) (smq s) (sm_id s) (previd s) (bound s) (sm_bound s) (bind_saved s) (next_gid s) (nconn s).
+  mk_state (connected s) (neg_done s) (h_feat s) v (h_sm s) (sm_enabled s) (sm_support s) (can_resume s) (resume s) (dont_req s) (r_sent s) (sent_nr s) (handled_nr s) (sq s) (smq s) (sm_id s) (previd s) (bound s) (sm_bound s) (bind_saved s) (next_gid s) (nconn s) (on_connect s).
 Definition set_h_sm (s : state) (v : bool) : state :=
-  mk_state (connected s) (neg_done s) (h_feat s) (h_bind s) v (sm_enabled s) (sm_support s) (can_resume s) (resume s) (dont_req s) (r_sent s) (sent_nr s) (handled_nr s) (sq s) (smq s) (sm_id s) (previd s) (bound s) (sm_bound s) (bind_saved s) (next_gid s) (nconn s).
+  mk_state (connected s) (neg_done s) (h_feat s) (h_bind s) v (sm_enabled s) (sm_support s) (can_resume s) (resume s) (dont_req s) (r_sent s) (sent_nr s) (handled_nr s) (sq s) (smq s) (sm_id s) (previd s) (bound s) (sm_bound s) (bind_saved s) (next_gid s) (nconn s) (on_connect s).
 Definition set_sm_enabled (s : state) (v : bool) : state :=
-  mk_state (connected s) (neg_done s) (h_feat s) (h_bind s) (h_sm s) v (sm_support s) (can_resume s) (resume s) (dont_req s) (r_sent s) (sent_nr s) (handled_nr s) (sq s) (smq s) (sm_id s) (previd s) (bound s) (sm_bound s) (bind_saved s) (next_gid s) (nconn s).
+  mk_state (connected s) (neg_done s) (h_feat s) (h_bind s) (h_sm s) v (sm_support s) (can_resume s) (resume s) (dont_req s) (r_sent s) (sent_nr s) (handled_nr s) (sq s) (smq s) (sm_id s) (previd s) (bound s) (sm_bound s) (bind_saved s) (next_gid s) (nconn s) (on_connect s).
 Definition set_sm_support (s : state) (v : bool) : state :=
-  mk_state (connected s) (neg_done s) (h_feat s) (h_bind s) (h_sm s) (sm_enabled s) v (can_resume s) (resume s) (dont_req s) (r_sent s) (sent_nr s) (handled_nr s) (sq s) (smq s) (sm_id s) (previd s) (bound s) (sm_bound s) (bind_saved s) (next_gid s) (nconn s).
+  mk_state (connected s) (neg_done s) (h_feat s) (h_bind s) (h_sm s) (sm_enabled s) v (can_resume s) (resume s) (dont_req s) (r_sent s) (sent_nr s) (handled_nr s) (sq s) (smq s) (sm_id s) (previd s) (bound s) (sm_bound s) (bind_saved s) (next_gid s) (nconn s) (on_connect s).
 Definition set_can_resume (s : state) (v : bool) : state :=
-  mk_state (connected s) (neg_done s) (h_feat s) (h_bind s) (h_sm s) (sm_enabled s) (sm_support s) v (resume s) (dont_req s) (r_sent s) (sent_nr s) (handled_nr s) (sq s) (smq s) (sm_id s) (previd s) (bound s) (sm_bound s) (bind_saved s) (next_gid s) (nconn s).
+  mk_state (connected s) (neg_done s) (h_feat s) (h_bind s) (h_sm s) (sm_enabled s) (sm_support s) v (resume s) (dont_req s) (r_sent s) (sent_nr s) (handled_nr s) (sq s) (smq s) (sm_id s) (previd s) (bound s) (sm_bound s) (bind_saved s) (next_gid s) (nconn s) (on_connect s).
 Definition set_resume (s : state) (v : bool) : state :=
-  mk_state (connected s) (neg_done s) (h_feat s) (h_bind s) (h_sm s) (sm_enabled s) (sm_support s) (can_resume s) v (dont_req s) (r_sent s) (sent_nr s) (handled_nr s) (sq s) (smq s) (sm_id s) (previd s) (bound s) (sm_bound s) (bind_saved s) (next_gid s) (nconn s).
+  mk_state (connected s) (neg_done s) (h_feat s) (h_bind s) (h_sm s) (sm_enabled s) (sm_support s) (can_resume s) v (dont_req s) (r_sent s) (sent_nr s) (handled_nr s) (sq s) (smq s) (sm_id s) (previd s) (bound s) (sm_bound s) (bind_saved s) (next_gid s) (nconn s) (on_connect s).
 Definition set_dont_req (s : state) (v : bool) : state :=
-  mk_state (connected s) (neg_done s) (h_feat s) (h_bind s) (h_sm s) (sm_enabled s) (sm_support s) (can_resume s) (resume s) v (r_sent s) (sent_nr s) (handled_nr s) (sq s) (smq s) (sm_id s) (previd s) (bound s) (sm_bound s) (bind_saved s) (next_gid s) (nconn s).
+  mk_state (connected s) (neg_done s) (h_feat s) (h_bind s) (h_sm s) (sm_enabled s) (sm_support s) (can_resume s) (resume s) v (r_sent s) (sent_nr s) (handled_nr s) (sq s) (smq s) (sm_id s) (previd s) (bound s) (sm_bound s) (bind_saved s) (next_gid s) (nconn s) (on_connect s).
 Definition set_r_sent (s : state) (v : bool) : state :=
-  mk_state (connected s) (neg_done s) (h_feat s) (h_bind s) (h_sm s) (sm_enabled s) (sm_support s) (can_resume s) (resume s) (dont_req s) v (sent_nr s) (handled_nr s) (sq s) (smq s) (sm_id s) (previd s) (bound s) (sm_bound s) (bind_saved s) (next_gid s) (nconn s).
+  mk_state (connected s) (neg_done s) (h_feat s) (h_bind s) (h_sm s) (sm_enabled s) (sm_support s) (can_resume s) (resume s) (dont_req s) v (sent_nr s) (handled_nr s) (sq s) (smq s) (sm_id s) (previd s) (bound s) (sm_bound s) (bind_saved s) (next_gid s) (nconn s) (on_connect s).
 Definition set_sent_nr (s : state) (v : Z) : state :=
-  mk_state (connected s) (neg_done s) (h_feat s) (h_bind s) (h_sm s) (sm_enabled s) (sm_support s) (can_resume s) (resume s) (dont_req s) (r_sent s) v (handled_nr s) (sq s) (smq s) (sm_id s) (previd s) (bound s) (sm_bound s) (bind_saved s) (next_gid s) (nconn s).
+  mk_state (connected s) (neg_done s) (h_feat s) (h_bind s) (h_sm s) (sm_enabled s) (sm_support s) (can_resume s) (resume s) (dont_req s) (r_sent s) v (handled_nr s) (sq s) (smq s) (sm_id s) (previd s) (bound s) (sm_bound s) (bind_saved s) (next_gid s) (nconn s) (on_connect s).
 Definition set_handled_nr (s : state) (v : Z) : state :=
-  mk_state (connected s) (neg_done s) (h_feat s) (h_bind s) (h_sm s) (sm_enabled s) (sm_support s) (can_resume s) (resume s) (dont_req s) (r_sent s) (sent_nr s) v (sq s) (smq s) (sm_id s) (previd s) (bound s) (sm_bound s) (bind_saved s) (next_gid s) (nconn s).
+  mk_state (connected s) (neg_done s) (h_feat s) (h_bind s) (h_sm s) (sm_enabled s) (sm_support s) (can_resume s) (resume s) (dont_req s) (r_sent s) (sent_nr s) v (sq s) (smq s) (sm_id s) (previd s) (bound s) (sm_bound s) (bind_saved s) (next_gid s) (nconn s) (on_connect s).
 Definition set_sq (s : state) (v : list sqe) : state :=
-  mk_state (connected s) (neg_done s) (h_feat s) (h_bind s) (h_sm s) (sm_enabled s) (sm_support s) (can_resume s) (resume s) (dont_req s) (r_sent s) (sent_nr s) (handled_nr s) v (smq s) (sm_id s) (previd s) (bound s) (sm_bound s) (bind_saved s) (next_gid s) (nconn s).
+  mk_state (connected s) (neg_done s) (h_feat s) (h_bind s) (h_sm s) (sm_enabled s) (sm_support s) (can_resume s) (resume s) (dont_req s) (r_sent s) (sent_nr s) (handled_nr s) v (smq s) (sm_id s) (previd s) (bound s) (sm_bound s) (bind_saved s) (next_gid s) (nconn s) (on_connect s).
 Definition set_smq (s : state) (v : list sme) : state :=
-  mk_state (connected s) (neg_done s) (h_feat s) (h_bind s) (h_sm s) (sm_enabled s) (sm_support s) (can_resume s) (resume s) (dont_req s) (r_sent s) (sent_nr s) (handled_nr s) (sq s) v (sm_id s) (previd s) (bound s) (sm_bound s) (bind_saved s) (next_gid s) (nconn s).
+  mk_state (connected s) (neg_done s) (h_feat s) (h_bind s) (h_sm s) (sm_enabled s) (sm_support s) (can_resume s) (resume s) (dont_req s) (r_sent s) (sent_nr s) (handled_nr s) (sq s) v (sm_id s) (previd s) (bound s) (sm_bound s) (bind_saved s) (next_gid s) (nconn s) (on_connect s).
 Definition set_sm_id (s : state) (v : option (list Z)) : state :=
-  mk_state (connected s) (neg_done s) (h_feat s) (h_bind s) (h_sm s) (sm_enabled s) (sm_support s) (can_resume s) (resume s) (dont_req s) (r_sent s) (sent_nr s) (handled_nr s) (sq s) (smq s) v (previd s) (bound s) (sm_bound s) (bind_saved s) (next_gid s) (nconn s).
+  mk_state (connected s) (neg_done s) (h_feat s) (h_bind s) (h_sm s) (sm_enabled s) (sm_support s) (can_resume s) (resume s) (dont_req s) (r_sent s) (sent_nr s) (handled_nr s) (sq s) (smq s) v (previd s) (bound s) (sm_bound s) (bind_saved s) (next_gid s) (nconn s) (on_connect s).
 Definition set_previd (s : state) (v : option (list Z)) : state :=
-  mk_state (connected s) (neg_done s) (h_feat s) (h_bind s) (h_sm s) (sm_enabled s) (sm_support s) (can_resume s) (resume s) (dont_req s) (r_sent s) (sent_nr s) (handled_nr s) (sq s) (smq s) (sm_id s) v (bound s) (sm_bound s) (bind_saved s) (next_gid s) (nconn s).
+  mk_state (connected s) (neg_done s) (h_feat s) (h_bind s) (h_sm s) (sm_enabled s) (sm_support s) (can_resume s) (resume s) (dont_req s) (r_sent s) (sent_nr s) (handled_nr s) (sq s) (smq s) (sm_id s) v (bound s) (sm_bound s) (bind_saved s) (next_gid s) (nconn s) (on_connect s).
 Definition set_bound (s : state) (v : bool) : state :=
-  mk_state (connected s) (neg_done s) (h_feat s) (h_bind s) (h_sm s) (sm_enabled s) (sm_support s) (can_resume s) (resume s) (dont_req s) (r_sent s) (sent_nr s) (handled_nr s) (sq s) (smq s) (sm_id s) (previd s) v (sm_bound s) (bind_saved s) (next_gid s) (nconn s).
+  mk_state (connected s) (neg_done s) (h_feat s) (h_bind s) (h_sm s) (sm_enabled s) (sm_support s) (can_resume s) (resume s) (dont_req s) (r_sent s) (sent_nr s) (handled_nr s) (sq s) (smq s) (sm_id s) (previd s) v (sm_bound s) (bind_saved s) (next_gid s) (nconn s) (on_connect s).
 Definition set_sm_bound (s : state) (v : bool) : state :=
-  mk_state (connected s) (neg_done s) (h_feat s) (h_bind s) (h_sm s) (sm_enabled s) (sm_support s) (can_resume s) (resume s) (dont_req s) (r_sent s) (sent_nr s) (handled_nr s) (sq s) (smq s) (sm_id s) (previd s) (bound s) v (bind_saved s) (next_gid s) (nconn s).
+  mk_state (connected s) (neg_done s) (h_feat s) (h_bind s) (h_sm s) (sm_enabled s) (sm_support s) (can_resume s) (resume s) (dont_req s) (r_sent s) (sent_nr s) (handled_nr s) (sq s) (smq s) (sm_id s) (previd s) (bound s) v (bind_saved s) (next_gid s) (nconn s) (on_connect s).
 Definition set_bind_saved (s : state) (v : bool) : state :=
-  mk_state (connected s) (neg_done s) (h_feat s) (h_bind s) (h_sm s) (sm_enabled s) (sm_support s) (can_resume s) (resume s) (dont_req s) (r_sent s) (sent_nr s) (handled_nr s) (sq s) (smq s) (sm_id s) (previd s) (bound s) (sm_bound s) v (next_gid s) (nconn s).
+  mk_state (connected s) (neg_done s) (h_feat s) (h_bind s) (h_sm s) (sm_enabled s) (sm_support s) (can_resume s) (resume s) (dont_req s) (r_sent s) (sent_nr s) (handled_nr s) (sq s) (smq s) (sm_id s) (previd s) (bound s) (sm_bound s) v (next_gid s) (nconn s) (on_connect s).
 Definition set_next_gid (s : state) (v : Z) : state :=
-  mk_state (connected s) (neg_done s) (h_feat s) (h_bind s) (h_sm s) (sm_enabled s) (sm_support s) (can_resume s) (resume s) (dont_req s) (r_sent s) (sent_nr s) (handled_nr s) (sq s) (smq s) (sm_id s) (previd s) (bound s) (sm_bound s) (bind_saved s) v (nconn s).
+  mk_state (connected s) (neg_done s) (h_feat s) (h_bind s) (h_sm s) (sm_enabled s) (sm_support s) (can_resume s) (resume s) (dont_req s) (r_sent s) (sent_nr s) (handled_nr s) (sq s) (smq s) (sm_id s) (previd s) (bound s) (sm_bound s) (bind_saved s) v (nconn s) (on_connect s).
 Definition set_nconn (s : state) (v : Z) : state :=
-  mk_state (connected s) (neg_done s) (h_feat s) (h_bind s) (h_sm s) (sm_enabled s) (sm_support s) (can_resume s) (resume s) (dont_req s) (r_sent s) (sent_nr s) (handled_nr s) (sq s) (smq s) (sm_id s) (previd s) (bound s) (sm_bound s) (bind_saved s) (next_gid s) v.
+  mk_state (connected s) (neg_done s) (h_feat s) (h_bind s) (h_sm s) (sm_enabled s) (sm_support s) (can_resume s) (resume s) (dont_req s) (r_sent s) (sent_nr s) (handled_nr s) (sq s) (smq s) (sm_id s) (previd s) (bound s) (sm_bound s) (bind_saved s) (next_gid s) v (on_connect s).
+Definition set_on_connect (s : state) (v : list (list Z)) : state :=
+  mk_state (connected s) (neg_done s) (h_feat s) (h_bind s) (h_sm s) (sm_enabled s) (sm_support s) (can_resume s) (resume s) (dont_req s) (r_sent s) (sent_nr s) (handled_nr s) (sq s) (smq s) (sm_id s) (previd s) (bound s) (sm_bound s) (bind_saved s) (next_gid s) (nconn s) v.
 
 Definition init : state :=
-  mk_state false false false false false  false false false false false false  0 0 [] []  None None false false false  1 0.
+  mk_state false false false false false  false false false false false false  0 0 [] []  None None false false false  1 0 [].
 
 (* ---------------------------------------------------------------- outputs *)
 Record blob := mk_blob { b_sent : Z; b_handled : Z; b_id : list Z; b_sq : list (list Z); b_smq : list (Z * list Z) }.
@@ -265,9 +270,20 @@ Definition write_phase (st : state) (sched : list sitem) : state * list out * li
   else (st, [], sched).
 
 (* ---------------------------------------------------------------- negotiation *)
-(* _stream_negotiation_success *)
+(* what the application's connection handler does on XMPP_CONN_CONNECT: it submits the stanzas of `on_connect` *)
+Fixpoint run_script (l : list (list Z)) (st : state) : state * list out :=
+  match l with
+  | [] => (st, [])
+  | t :: r => let '(st1, o1) := user_send st t in
+              let '(st2, o2) := run_script r st1 in (st2, o1 ++ o2)
+  end.
+
+(* _stream_negotiation_success: the connection handler runs here, inside the library call *)
 Definition neg_success (st : state) : state * list out :=
-  if neg_done st then (st, []) else (set_neg_done st true, [OConnect]).
+  if neg_done st then (st, []) else
+  let st1 := set_neg_done st true in
+  let '(st2, o) := run_script (on_connect st1) st1 in
+  (st2, OConnect :: o).
 
 (* _do_bind *)
 Definition do_bind (bind_text : list Z) (st : state) : state * list out :=
@@ -481,7 +497,8 @@ Inductive action :=
 | AIn (it : initem)
 | AEnd                            (* </stream:stream> *)
 | ALoss                           (* recv() = 0 or ECONNRESET *)
-| AConnect.
+| AConnect
+| AOnConnect (l : list (list Z)). (* the application changes what its connection handler submits on CONNECT *)
 
 Definition step (bind_text : list Z) (st : state) (a : action) : state * list out :=
   match a with
@@ -491,6 +508,7 @@ Definition step (bind_text : list Z) (st : state) (a : action) : state * list ou
   | AEnd => if connected st then stream_end st else (st, [])
   | ALoss => disconnect st
   | AConnect => do_connect st
+  | AOnConnect l => (set_on_connect st l, [])
   end.
 
 Fixpoint run (bind_text : list Z) (st : state) (l : list action) : state * list out :=
@@ -508,7 +526,8 @@ Inductive cmd :=
 | CTx (l : list sitem)         (* tx *)
 | CRx (c : rxchunk)            (* rx / rxclose / rxreset *)
 | CRun                         (* run: one xmpp_run_once *)
-| CConnect.                    (* connect client + the fixed negotiation up to the second stream start *)
+| CConnect                     (* connect client + the fixed negotiation up to the second stream start *)
+| COnConnect (l : list (list Z)). (* onconnect send:..,send:.. *)
 
 Fixpoint dispatch_all (bind_text : list Z) (st : state) (l : list initem) : state * list out :=
   match l with
@@ -540,6 +559,7 @@ Definition exec (bind_text : list Z) (d : dstate) (c : cmd) : dstate * list out 
   | CConnect =>
       if connected (d_st d) then (d, [])
       else let '(st, o) := step bind_text (d_st d) AConnect in (mk_d st [] [], o)
+  | COnConnect l => let '(st, o) := step bind_text (d_st d) (AOnConnect l) in (mk_d st (d_tx d) (d_rx d), o)
   end.
 
 Definition dinit : dstate := mk_d init [] [].
